@@ -123,6 +123,8 @@ pub const CFGS_LOCKS: [TxCfg; 9] = [
 ];
 
 struct Setup {
+    /// the signer works from the PSBT's own fields (sighash_msg) instead of the real previous outputs
+    sign_from_psbt: bool,
     cases: Vec<DescCase>,
     psbt0: Psbt,
     tx: Transaction,
@@ -203,7 +205,7 @@ fn setup_opt(pair: &[D; 2], cfg: TxCfg, partial_updates: bool) -> Option<Setup> 
     }
     actions.push(Act::Finalize);
     actions.push(Act::FinalizeMall);
-    Some(Setup { cases, psbt0, tx, prevouts, actions })
+    Some(Setup { sign_from_psbt: cfg.name == "forged-utxo", cases, psbt0, tx, prevouts, actions })
 }
 
 fn spend_of(s: &Setup, idx: usize) -> Spend { Spend { tx: s.tx.clone(), idx, prevouts: s.prevouts.clone() } }
@@ -225,7 +227,21 @@ fn apply(s: &Setup, p: &Psbt, a: &Act) -> Result<(Psbt, Result<(), String>), Str
                 let k = key(kl);
                 match (&c.sign, leaf) {
                     (SignCtx::Ecdsa { script_code, sigver }, _) => {
-                        let raw = ecdsa_sig_for(k, &sp, script_code, *sigver);
+                        // a real signer signs what the PSBT tells it to sign
+                        let from_psbt = if s.sign_from_psbt {
+                            let mut cache = SighashCache::new(&s.tx);
+                            match q.sighash_msg(*i, &mut cache, None) {
+                                Ok(PsbtSighashMsg::LegacySighash(h)) => Some(h.to_byte_array()),
+                                Ok(PsbtSighashMsg::SegwitV0Sighash(h)) => Some(h.to_byte_array()),
+                                _ => None,
+                            }
+                        } else {
+                            None
+                        };
+                        let raw = match from_psbt {
+                            Some(d) => crate::world::sign_ecdsa(k, d, 1),
+                            None => ecdsa_sig_for(k, &sp, script_code, *sigver),
+                        };
                         let sig = bitcoin::ecdsa::Signature::from_slice(&raw).unwrap();
                         q.inputs[*i].partial_sigs.insert(bitcoin::PublicKey::new(k.pk), sig);
                     }
@@ -696,9 +712,12 @@ fn explore_pair_mode(rep: &Report, name: &str, pair: &[D; 2], depth: usize, cfg:
             // update invariants
             if let Act::Update(i) = a {
                 if cfg.name == "forged-utxo" {
-                    // the two utxo fields disagree about the amount: the update has to notice
+                    // the two utxo fields disagree about the amount. Where the library notices is its
+                    // choice (today: the update refuses); what C14 demands is that no history ends in a
+                    // finalized input or extracted transaction that does not spend the real output -
+                    // the signer below signs what the PSBT says, the RSM judges against the real output.
                     if r.is_ok() {
-                        viol("update-accepts-inconsistent-utxos".into(), format!("update_input_with_descriptor accepts input {} whose witness_utxo and non_witness_utxo disagree about the amount", i), &h2, json!(null));
+                        bump(&mut cen, "inconsistent_utxos_accepted_by_update");
                     } else {
                         bump(&mut cen, "inconsistent_utxos_refused");
                     }
